@@ -11,6 +11,7 @@ mod fam_semw;
 mod fam_scope;
 mod fam_shape;
 mod fam_graph;
+mod fam_accept;
 mod sema;
 mod fam_tree;
 mod fam_use;
@@ -39,6 +40,7 @@ fn main() {
         "scope" => fam_scope::run(rest),
         "shape" => fam_shape::run(rest),
         "graph" => fam_graph::run(rest),
+        "accept" => fam_accept::run(rest),
         f => {
             eprintln!("unknown family {f}");
             std::process::exit(2);
